@@ -10,7 +10,9 @@
   * proven client = the hint's `azp`, without a hint the `client_id` parameter.
   * a redirect target is the default logout URI, or the requested URI if it is registered for the proven
     client (exactly, or via a glob of a client that opted in; `path.Match` is an oracle); with a `state`
-    the target is that URI plus exactly one more `state` value (as a user agent decodes the Location).
+    the target is that URI plus exactly one more `state` value (as a user agent decodes the Location):
+    same URL in front of the query, same fragment, every parameter of the URI's own query still there, the
+    settings of its query that Go's decoder does not read (`a;b=1`, a malformed escape) still there unchanged.
   * the session handed to the storage is (hint subject or "", proven client or "").
   * a request that satisfies all rules must not be rejected ("an expired hint is still accepted").
 -/
@@ -103,14 +105,14 @@ inductive TargetVerdict | exact | altered | other
   deriving DecidableEq, Repr
 
 /-- is the observed Location the URI `t` (plus `state`)? `altered`: same SessURL up to the query, but the
-    query is not `t`'s own query plus the state -/
+    query is not `t`'s own query (decoded parameters and unread settings) plus the state -/
 def targetVerdict (o : Orc) (state loc : String) (dec : Go.R SessURL) (t : String) : TargetVerdict :=
   if state == "" then (if loc == t then .exact else .other)
   else
     match o.urlParse t, dec with
     | .ok tu, .ok lu =>
       if lu.base == tu.base && lu.frag == tu.frag then
-        (if !tu.lossy && !lu.lossy && queryPlusState tu.query lu.query state then .exact else .altered)
+        (if queryPlusState tu.query lu.query state && lu.unread == tu.unread then .exact else .altered)
       else .other
     | _, _ => .other
 
